@@ -21,6 +21,9 @@ GENS = [
 
 
 def main(tier, replay=None):
+    if replay and '"existing-probe"' in open(replay).read():
+        import c04_existing
+        return c04_existing.replay("C01", replay)
     if replay:
         return inst_check.replay("C01", replay, 2)
     return inst_check.run("C01", tier, 2, GENS, 400, 6000, ASSUMPTIONS)
@@ -114,6 +117,9 @@ def line_injection(chk, cases, bad, extra):
 
 
 def main(tier, replay=None):  # noqa: F811  (supersedes the definition above)
+    if replay and '"existing-probe"' in open(replay).read():
+        import c04_existing
+        return c04_existing.replay("C01", replay)
     if replay:
         return inst_check.replay("C01", replay, 2)
     return inst_check.run("C01", tier, 2, GENS, 400, 6000, ASSUMPTIONS, post=line_injection)
@@ -528,6 +534,10 @@ def _post(chk, cases, bad, extra):
     # element helpers) on the classes outside the model: the caller's object is never written
     import c04_replacement
     c04_replacement.explore(chk, extra, "C01", n_quick=1200, n_thorough=20000)
+    # preparers resolving a name to an object the receiver / a registry already holds + nested keywords;
+    # copy-on-write element helpers on EMPTY containers (with and without a late failure)
+    import c04_existing
+    c04_existing.explore(chk, extra, "C01", n_quick=800, n_thorough=12000)
 
 
 def _aimed(rng, t):
@@ -551,6 +561,9 @@ def main(tier, replay=None):  # noqa: F811
     if replay and '"replacement-probe"' in open(replay).read():
         import c04_replacement
         return c04_replacement.replay("C01", replay)
+    if replay and '"existing-probe"' in open(replay).read():
+        import c04_existing
+        return c04_existing.replay("C01", replay)
     if replay:
         return inst_check.replay("C01", replay, 2)
     return inst_check.run("C01", tier, 2, GENS, 400, 6000, ASSUMPTIONS, post=_post, aimed=_aimed)
